@@ -300,9 +300,12 @@ def run_shard(spec):
         cases[4].update(gen_fixed("popen", "thread", "callback_service", "sigkill"))
     if spec["shard"] == 3:
         cases[0].update(gen_fixed("popen", "thread", "inbound_flood", "sigkill"))
-        cases[1].update(gen_fixed("python", "main_thread_only", "inbound_flood", "os_exit"))
+        cases[1].update(gen_fixed("python", "main_thread_only", "inbound_flood", "sigkill"))
     if spec["shard"] == 4:
         cases[0].update(gen_fixed("via", "thread", "inbound_flood", "sigkill"))
+        cases[1].update(gen_fixed("popen", "thread", "inbound_flood", "sigterm"))
+    if spec["shard"] == 5:
+        cases[0].update(gen_fixed("popen", "main_thread_only", "inbound_flood", "sigkill"))
         cases[5].update(gen_fixed("python", "main_thread_only", "callback_service", "close_connection"))
         cases[3].update(gen_fixed("python", "thread", "sigint_ignored", "sigkill", stderr="closed"))
     if spec["shard"] == 2:
